@@ -395,6 +395,16 @@ MASK_ANY_DTYPE = {"median_filter", "circular_average_filter", "sobel", "hsobel",
                   "vprewitt", "roberts"}
 
 
+# the integer-mask stream: 0/1 masks of integer dtype for EVERY listed function (and, as a separately counted class,
+# masks whose truthy value is 2 or 255); mask_true only matters for the non-bool dtypes
+MASK_DTYPES = ["bool"] * 7 + ["uint8", "int64", "int32"]
+# known finding F24: these index with `image[mask]` / `x[~mask]` without casting the mask to bool, so an integer 0/1 mask
+# becomes fancy row indexing / ~mask becomes -1, -2 (or 254, 255)
+F24_FUNCS = {"smooth_with_function_and_mask", "canny", "stretch", "circular_hough", "laplacian_of_gaussian",
+             "variance_transform", "convex_hull_transform", "bridge", "clean", "diag", "endpoints", "branchpoints", "fill",
+             "fill4", "hbreak", "vbreak", "majority", "remove", "spur", "thicken", "thin", "skeletonize", "branchings"}
+
+
 def _image(rng, kind, dtype, H, W):
     dt = np.dtype(dtype)
     if kind == "bool":
@@ -458,7 +468,7 @@ def make_case(rng, fn, vi):
         alts.append({"kind": a, "vals": v})
     return {"fn": fn, "variant": vi, "tag": tag, "kind": kind, "mask_class": cls, "img": img.tolist(),
             "mask": m.astype(int).tolist(), "alts": alts, "dtype": dtype,
-            "mask_dtype": str(rng.choice(["bool", "bool", "uint8", "int64"])) if fn in MASK_ANY_DTYPE else "bool",
+            "mask_dtype": str(rng.choice(MASK_DTYPES)), "mask_true": int(rng.choice([1] * 8 + [2, 255])),
             "layout": str(rng.choice(LAYOUTS)), "mask_layout": str(rng.choice(LAYOUTS))}
 
 
@@ -581,6 +591,7 @@ def generate(ctx):
             ctx.count("layout:" + c["layout"] + "/" + c["mask_layout"])
             if c["mask_dtype"] != "bool":
                 ctx.count("mask_dtype:" + c["mask_dtype"])
+                ctx.count("int_mask_truthy_value:%d" % c["mask_true"])
             hh, ww = len(c["img"]), len(c["img"][0])
             ctx.count("shape:" + ("strip" if max(hh, ww) >= 70 else "tiny" if min(hh, ww) <= 3 else "small"))
     return cases
@@ -633,10 +644,17 @@ def _mods():
     return _MODS
 
 
+def _mask_array(case, mask):
+    dt = case.get("mask_dtype", "bool")
+    if dt == "bool":
+        return mask
+    return mask.astype(dt) * np.array(case.get("mask_true", 1)).astype(dt)
+
+
 def _run(f, case, img, mask):
     try:
         a = _layout(img, case.get("layout", "C"))
-        k = _layout(mask.astype(case.get("mask_dtype", "bool")), case.get("mask_layout", "C"))
+        k = _layout(_mask_array(case, mask), case.get("mask_layout", "C"))
         return {"out": canon(f(_mods(), a, k))}
     except Exception as e:                                     # noqa
         return {"exc": type(e).__name__, "msg": str(e)[:200]}
@@ -651,12 +669,7 @@ def _variant(case):
     return vs[case["variant"]]
 
 
-def impl(case):
-    if case.get("fn") == "__ref__":
-        return _ref_impl(case)
-    f = _variant(case)[2]
-    mask = np.array(case["mask"], dtype=int).astype(bool)
-    img = _arr(case, case["img"])
+def _runs(case, f, img, mask):
     base = _run(f, case, img, mask)
     res = {"base": base, "alts": [], "inputs": []}
     for a in case["alts"]:
@@ -666,6 +679,19 @@ def impl(case):
         res["inputs"].append(canon(img2)[0])
     res["input0"] = canon(img)[0]
     res["base_again"] = _run(f, case, img, mask)               # same call after the others: no state kept between calls
+    return res
+
+
+def impl(case):
+    if case.get("fn") == "__ref__":
+        return _ref_impl(case)
+    f = _variant(case)[2]
+    mask = np.array(case["mask"], dtype=int).astype(bool)
+    img = _arr(case, case["img"])
+    res = _runs(case, f, img, mask)
+    if case.get("mask_dtype", "bool") != "bool":
+        # control for the attribution of F24: the very same calls with mask.astype(bool)
+        res["control"] = _runs(dict(case, mask_dtype="bool"), f, img, mask)
     return res
 
 
@@ -720,6 +746,26 @@ def check(ctx, cases, outs):
                 res[k] = "%s[%s]: output OUTSIDE the mask differs from the input (run %s; Spec.MaskCheck.agree_out false)" % (
                     cases[k]["fn"], cases[k]["tag"], kind)
     return res
+
+
+def attribute(ctx, case, out, clause):
+    """F24 (known): a two-run leak / unrestored outside pixel / exception with a mask of NON-BOOL INTEGER dtype, in a function
+    of F24_FUNCS, when the very same calls with mask.astype(bool) pass the check.  Anything else stays a violation."""
+    if case.get("fn") not in F24_FUNCS or case.get("mask_dtype", "bool") == "bool":
+        return None
+    if not isinstance(out, dict) or "control" not in out:
+        return None
+    c2 = dict(case, mask_dtype="bool")
+    if check(ctx, [c2], [out["control"]])[0] is not None:
+        return None                                   # it also fails with a boolean mask: not F24
+    return "F24"
+
+
+def reproduce_finding(ctx, finding):
+    case = finding["witness"]
+    o = ctx.run_impl([case])[0]
+    v = check(ctx, [case], [o])[0]
+    return bool(v) and attribute(ctx, case, o, v) == finding["id"]
 
 
 def nontrivial(case, out):
